@@ -348,4 +348,274 @@ theorem addToSet_idem (c : ACtx) (s s1 : AState) (path : String) (v : V)
             simp only [this, record_fresh]
             exact ⟨_, rfl, rfl⟩
 
+/-! ### the change log is conflict free -/
+
+/-- two recorded paths conflict when one is a prefix of the other (or they are equal). -/
+def related (p q : Path) : Bool := isPrefixOf p q || isPrefixOf q p
+
+/-- no two recorded paths are prefix-related. -/
+def ConflictFree (ch : List (String × V)) : Prop :=
+  ch.Pairwise fun a b => related (splitPath a.1) (splitPath b.1) = false
+
+theorem record_changed {s s' : AState} {path : String} {val : V} (h : record s path val = .ok s') :
+    s'.changed = s.changed ++ [(path, val)] ∧
+      (∀ a ∈ s.changed, related (splitPath a.1) (splitPath path) = false) := by
+  unfold record at h
+  simp only at h
+  split at h
+  · cases h
+  · rename_i hany
+    cases h
+    refine ⟨rfl, ?_⟩
+    intro a ha
+    simp only [List.any_eq_true, not_exists, not_and, Bool.not_eq_true] at hany
+    exact hany a ha
+
+theorem record_cf {s s' : AState} {path : String} {val : V} (h : record s path val = .ok s')
+    (hc : ConflictFree s.changed) : ConflictFree s'.changed := by
+  obtain ⟨e, hnew⟩ := record_changed h
+  unfold ConflictFree at hc ⊢
+  rw [e, List.pairwise_append]
+  refine ⟨hc, List.pairwise_singleton _ _, ?_⟩
+  intro a ha b hb
+  simp only [List.mem_singleton] at hb
+  subst hb
+  exact hnew a ha
+
+theorem putRec_cf {s s' : AState} {path : String} {v : V} (h : putRec s path v = .ok s')
+    (hc : ConflictFree s.changed) : ConflictFree s'.changed := by
+  unfold putRec at h
+  split at h
+  · cases h
+  · exact record_cf h hc
+
+theorem recs_cf {path : String} {s s' : AState} {i : Nat} {vals : List V}
+    (h : applyOp.recs path s i vals = .ok s') (hc : ConflictFree s.changed) : ConflictFree s'.changed := by
+  induction vals generalizing s i with
+  | nil => unfold applyOp.recs at h; cases h; exact hc
+  | cons val r ih =>
+    unfold applyOp.recs at h
+    split at h
+    · cases h
+    · rename_i s1 h1; exact ih h (record_cf h1 hc)
+
+/-- every operator keeps the change log conflict free (all writes to it go through `record`). -/
+theorem applyOp_cf (c : ACtx) (s s' : AState) (op path : String) (v : V)
+    (h : applyOp c s op path v = .ok s') (hc : ConflictFree s.changed) : ConflictFree s'.changed := by
+  unfold applyOp at h
+  simp only [] at h
+  split at h
+  all_goals
+    repeat' (first
+      | (cases h; done)
+      | (cases h; exact hc)
+      | exact putRec_cf h hc
+      | exact record_cf h hc
+      | exact recs_cf h hc
+      | split at h)
+  -- $rename: two records in a row
+  all_goals (rename_i h1; exact record_cf h (record_cf h1 hc))
+
+theorem Apply_each_cf (c : ACtx) (op : String) (value : V) (s s' : AState) (ps : List String)
+    (h : Apply.conds.each c op value s ps = .ok s') (hc : ConflictFree s.changed) :
+    ConflictFree s'.changed := by
+  induction ps generalizing s with
+  | nil => unfold Apply.conds.each at h; cases h; exact hc
+  | cons p r ih =>
+    unfold Apply.conds.each at h
+    split at h
+    · cases h
+    · rename_i s1 h1; exact ih _ h (applyOp_cf _ _ _ _ _ _ h1 hc)
+
+theorem Apply_conds_cf (c : ACtx) (afs : List Doc) (s s' : AState) (op : String) (upd : List (String × V))
+    (h : Apply.conds c afs s op upd = .ok s') (hc : ConflictFree s.changed) :
+    ConflictFree s'.changed := by
+  induction upd generalizing s with
+  | nil => unfold Apply.conds at h; cases h; exact hc
+  | cons kv r ih =>
+    obtain ⟨key, value⟩ := kv
+    unfold Apply.conds at h
+    split at h
+    · cases h
+    · split at h
+      · cases h
+      · rename_i s1 h1; exact ih _ h (Apply_each_cf _ _ _ _ _ _ h1 hc)
+
+theorem Apply_ops_cf (c : ACtx) (afs : List Doc) (s s' : AState) (upd : List (String × V))
+    (h : Apply.ops c afs s upd = .ok s') (hc : ConflictFree s.changed) :
+    ConflictFree s'.changed := by
+  induction upd generalizing s with
+  | nil => unfold Apply.ops at h; cases h; exact hc
+  | cons kv r ih =>
+    obtain ⟨key, value⟩ := kv
+    unfold Apply.ops at h
+    split at h
+    · split at h
+      · cases h
+      · split at h
+        · split at h
+          · cases h
+          · rename_i s1 h1; exact ih _ h (Apply_conds_cf _ _ _ _ _ _ h1 hc)
+        · cases h
+    · cases h
+
+/-- `record_conflict_free`: the paths recorded by a successful Apply are pairwise not prefix-related. -/
+theorem Apply_cf (c : ACtx) (d u : Doc) (afs : List Doc) (d' : Doc) (ch : List (String × V))
+    (h : Apply c d u afs = .ok (d', ch)) : ConflictFree ch := by
+  unfold Apply at h
+  split at h
+  · cases h
+  · split at h
+    · cases h
+    · rename_i s hs
+      cases h
+      exact Apply_ops_cf _ _ _ _ _ hs List.Pairwise.nil
+
+/-! ### recorded changes hold in the result (single-write operators) -/
+
+theorem putRec_holds {s s1 : AState} {path : String} {x : V} (h : putRec s path x = .ok s1) :
+    s1.changed = s.changed ++ [(path, x)] ∧ x.isMissing = false ∧
+      (canonPath (splitPath path) = true → Get s1.doc path = x) := by
+  obtain ⟨prev, hput⟩ := putRec_ok h
+  unfold putRec at h
+  split at h
+  · cases h
+  · refine ⟨(record_changed h).1, ?_, ?_⟩
+    · obtain ⟨key, rest, e⟩ : ∃ key rest, splitPath path = key :: rest := by
+        cases hsp : splitPath path with
+        | nil => exact absurd hsp (splitPath_ne_nil path)
+        | cons a b => exact ⟨a, b, rfl⟩
+      rw [e, Put_ok_iff] at hput
+      exact hput.1
+    · intro hcanon
+      rcases getP_Put_gen (splitPath_ne_nil path) hput with h' | ⟨c1, _, _⟩
+      · exact h'
+      · rw [hcanon] at c1; cases c1
+
+/-- the operators that perform at most one `Put` + `record` of a present value. -/
+def scalarOps : List String :=
+  ["$set", "$setOnInsert", "$inc", "$mul", "$min", "$max", "$currentDate", "$bit"]
+
+theorem applyOp_scalar_shape (c : ACtx) (s s1 : AState) (op path : String) (v : V)
+    (hop : op ∈ scalarOps) (h : applyOp c s op path v = .ok s1) :
+    s1 = s ∨ ∃ x, putRec s path x = .ok s1 := by
+  simp only [scalarOps, List.mem_cons, List.not_mem_nil, or_false] at hop
+  rcases hop with e | e | e | e | e | e | e | e <;> subst e <;>
+    (unfold applyOp at h; simp only [] at h) <;>
+    repeat' (first
+      | (cases h; done)
+      | (cases h; exact .inl rfl)
+      | exact .inr ⟨_, h⟩
+      | split at h)
+
+theorem Unset_ok_of_prev {d d' : Doc} {p : Path} {res : V} (hp : p ≠ []) (h : Unset d p = (d', res))
+    (hr : res.isMissing = false) : put (.doc d) p .missing false = .ok (.doc d', res) := by
+  cases p with
+  | nil => exact absurd rfl hp
+  | cons key rest =>
+    rw [Unset_eq] at h
+    split at h
+    · rename_i nv prev hput
+      split at h
+      · cases h; exact hput
+      · cases h; cases hr
+    · cases h; cases hr
+
+theorem unset_holds (c : ACtx) (s s1 : AState) (path : String) (v : V)
+    (hn : (V.doc s.doc).nodupKeys = true) (h : applyOp c s "$unset" path v = .ok s1) :
+    s1.changed = s.changed ∨
+      (s1.changed = s.changed ++ [(path, .missing)] ∧
+        (Get s1.doc path = .missing ∨ Get s1.doc path = .null)) := by
+  unfold applyOp at h; simp only [] at h
+  generalize hU : Unset s.doc (splitPath path) = U at h
+  obtain ⟨d', res⟩ := U
+  simp only at h
+  split at h
+  · cases h; left; rfl
+  · rename_i hres
+    right
+    refine ⟨(record_changed h).1, ?_⟩
+    rw [record_doc h]
+    simp only
+    have hput := Unset_ok_of_prev (splitPath_ne_nil path) hU (by simpa using hres)
+    rcases get_after_unset _ _ _ _ _ false hput hn with h' | h'
+    · left; unfold Get; rw [h']
+    · right; unfold Get; rw [h']
+
+/-! ### Apply on a single operator with a single literal path -/
+
+/-- the key contains no `$` (no positional operator). -/
+def noDollar (key : String) : Bool := key.toList.all (· != '$')
+
+theorem resolve_plain (sch : SchemaEval) (n : Nat) (key : String) (doc : Doc) (afs : List Doc)
+    (h : noDollar key = true) : resolve sch (n + 1) key doc afs = .ok [key] := by
+  have hs : splitDynamicPath key = (some key, none, none) := by
+    unfold splitDynamicPath
+    have : key.toList.findIdx? (· == '$') = none := by
+      rw [List.findIdx?_eq_none_iff]
+      intro x hx
+      unfold noDollar at h
+      rw [List.all_eq_true] at h
+      simpa using h x hx
+    simp only [this]
+  unfold resolve
+  rw [hs]
+  rfl
+
+theorem Apply_single (c : ACtx) (d : Doc) (op key : String) (v : V) (afs : List Doc)
+    (h1 : isOpKey op = true) (h2 : knownUpdateOp op = true) (h3 : noDollar key = true) :
+    Apply c d [(op, .doc [(key, v)])] afs =
+      match applyOp c { doc := d, changed := [] } op key v with
+      | .error e => .error e
+      | .ok s => .ok (s.doc, s.changed) := by
+  unfold Apply
+  simp only [List.isEmpty_cons, Bool.false_eq_true, if_false]
+  unfold Apply.ops
+  simp only [h1, h2, if_true, Bool.not_true, Bool.false_eq_true, if_false]
+  unfold Apply.conds
+  simp only [resolve_plain _ _ _ _ _ h3]
+  unfold Apply.conds.each
+  cases applyOp c { doc := d, changed := [] } op key v with
+  | error e => rfl
+  | ok s1 =>
+    simp only
+    unfold Apply.conds.each Apply.conds Apply.ops
+    rfl
+
+/-- the operators the property names as idempotent. -/
+def idemOps : List String := ["$set", "$unset", "$min", "$max", "$addToSet", "$pull", "$pullAll"]
+
+theorem idemOps_known {op : String} (h : op ∈ idemOps) : isOpKey op = true ∧ knownUpdateOp op = true := by
+  simp only [idemOps, List.mem_cons, List.not_mem_nil, or_false] at h
+  rcases h with e | e | e | e | e | e | e <;> subst e <;> exact ⟨by simp [isOpKey], by decide⟩
+
+theorem idem_of_mem (c : ACtx) (s s1 : AState) (op path : String) (v : V) (hop : op ∈ idemOps)
+    (hn : op = "$unset" → (V.doc s.doc).nodupKeys = true)
+    (h : applyOp c s op path v = .ok s1) : IdemAt c op path v s1 := by
+  simp only [idemOps, List.mem_cons, List.not_mem_nil, or_false] at hop
+  rcases hop with e | e | e | e | e | e | e <;> subst e
+  · exact set_idem _ _ _ _ _ h
+  · exact unset_idem _ _ _ _ _ (hn rfl) h
+  · exact min_idem _ _ _ _ _ h
+  · exact max_idem _ _ _ _ _ h
+  · exact addToSet_idem _ _ _ _ _ h
+  · exact pull_idem _ _ _ _ _ h
+  · exact pullAll_idem _ _ _ _ _ h
+
+/-- `apply_idempotent` for an update consisting of one idempotent operator on one literal path. -/
+theorem Apply_idem_single (c : ACtx) (d : Doc) (op key : String) (v : V) (afs : List Doc)
+    (d1 : Doc) (ch1 : List (String × V)) (hop : op ∈ idemOps) (hk : noDollar key = true)
+    (hn : op = "$unset" → (V.doc d).nodupKeys = true)
+    (h : Apply c d [(op, .doc [(key, v)])] afs = .ok (d1, ch1)) :
+    ∃ ch2, Apply c d1 [(op, .doc [(key, v)])] afs = .ok (d1, ch2) := by
+  obtain ⟨k1, k2⟩ := idemOps_known hop
+  rw [Apply_single _ _ _ _ _ _ k1 k2 hk] at h ⊢
+  split at h
+  · cases h
+  · rename_i s1 hs1
+    cases h
+    obtain ⟨s2, h2, hd⟩ := idem_of_mem c _ s1 op key v hop hn hs1
+    rw [h2]
+    exact ⟨s2.changed, by simp only [hd]⟩
+
 end Lungo
